@@ -24,6 +24,7 @@ impl J {
         }
         self
     }
+    #[allow(dead_code)]
     pub fn put(&mut self, k: &str, v: J) {
         if let J::Obj(ref mut o) = self {
             o.push((k.to_string(), v));
